@@ -69,7 +69,7 @@ theorem houseDepositO_total {s : State} {r : State × Nat} {c : Nat} {tk : Tk} {
     (h : houseDepositO s c tk m a pd = some r) : r.1.total = s.total := by
   unfold houseDepositO at h
   simp only [bind, Option.bind_eq_some_iff, pure, Option.some.injEq] at h
-  obtain ⟨_, _, _, _, _, _, s1, h1, _, _, mk, _, b, _, _, _, _, _, _, _, s2, h2, s3, h3, rfl⟩ := h
+  obtain ⟨_, _, _, _, _, _, s1, h1, _, _, mk, _, b, _, _, _, _, _, _, _, _, _, s2, h2, s3, h3, rfl⟩ := h
   have e1 : s1.total = s.total := grantStep_total h1
   have e2 := bankSend_total h2
   have e3 := bankSend_total h3
